@@ -393,6 +393,7 @@ type replayFile struct {
 	Shrunk    bool              `json:"shrunk"`
 	OrigLen   []int             `json:"orig_tape_len,omitempty"`
 	Race      bool              `json:"race_detector_build,omitempty"` // found by (and to be replayed with) the race-detector build
+	Note      string            `json:"note,omitempty"`
 }
 
 type knownFinding struct {
@@ -859,7 +860,15 @@ func explore(prop string, eng *engineDef, tier string) int {
 		writeJSON(path, final)
 		ok1, h1, why := replayOnce(gbin, path, prop, g.class, g.sig, scratch)
 		ok2, h2, _ := replayOnce(gbin, path, prop, g.class, g.sig, scratch)
-		if !ok1 || !ok2 || h1 != h2 {
+		if g.class == "data-race" && (!ok1 || !ok2) && h1 == h2 && h1 != "" {
+			// The schedule replays (equal hashes) but the detector stays silent: one of the two accesses
+			// is made by a goroutine outside the simulator's control (e.g. the registry's consumer inside
+			// Gather), so whether both accesses meet is up to the Go scheduler. The detector does not
+			// invent races: the report stands, with the recorded (unshrunk) run as its replay file.
+			rf.Note = "the race detector reported this race during exploration; replaying the schedule (which reproduces exactly, same hash) did not make the detector report it again within 6 attempts: one of the accesses belongs to a goroutine that is not scheduled by the simulator"
+			writeJSON(path, rf)
+			final = rf
+		} else if !ok1 || !ok2 || h1 != h2 {
 			harnessTrouble = fmt.Sprintf("violation %s (seed %d) did not replay identically in fresh processes (%v %v %s %s): %s", g.sig, g.best.Seed, ok1, ok2, h1, h2, why)
 			continue
 		}
@@ -1015,6 +1024,10 @@ func doReplay(prop string, eng *engineDef, path string) int {
 	}
 	if status == 0 && len(r.Violations) == 0 {
 		fmt.Println("no violation on replay")
+		if rf.Note != "" {
+			fmt.Println("note recorded with this file:", rf.Note)
+			fmt.Println("recorded report:", rf.Violation)
+		}
 	}
 	return status
 }
